@@ -26,15 +26,17 @@ def side_of(s) -> str:
     return "jws" if s["alg"] in ("HS256", "RS256", "ES256", "EdDSA") else "jwe"
 
 
-def slot_jwk(side, slot, kids) -> dict:
+def slot_jwk(side, slot, kids, first=False) -> dict:
     jwk = K.get(*SLOT[side][slot])
     if kids == "explicit":
         jwk["kid"] = "kid-" + slot
+    elif kids == "empty":                       # explicit kids one of which is the empty string (a kid is any string)
+        jwk["kid"] = "" if first else "kid-" + slot
     return jwk
 
 
 def kid_of(jwk) -> str:
-    return jwk.get("kid") or R.thumbprint(jwk)
+    return jwk["kid"] if "kid" in jwk else R.thumbprint(jwk)
 
 
 def make_set(jwks, private: bool):
@@ -67,7 +69,7 @@ def run_scn(args):
     from joserfc.errors import InvalidKeyIdError
     s, rep = args
     side = side_of(s)
-    jwks = [slot_jwk(side, sl, s["kids"]) for sl in s["set"]]
+    jwks = [slot_jwk(side, sl, s["kids"], sl == min(s["set"])) for sl in s["set"]]
     kids = [kid_of(j) for j in jwks]
     sel = s["kid"]
     hk = None if sel == "absent" else ("no-such-kid" if sel == "unknown" else kids[int(sel) - 1])
